@@ -130,6 +130,7 @@ type Run struct {
 	Ciphers     string
 	MACs        string
 	RekeyLimit  string // e.g. "16K"; "" = default
+	LogLevel    string // default ERROR (DEBUG1 makes stderr list the negotiated algorithms and every NEWKEYS)
 	Command     string
 	Stdin       []byte
 	Timeout     time.Duration // default 60 s
@@ -160,12 +161,15 @@ func (e *Env) Exec(r Run) Result {
 	if r.User == "" {
 		r.User = "vf"
 	}
+	if r.LogLevel == "" {
+		r.LogLevel = "ERROR"
+	}
 	args := []string{"-F", "none", "-T", "-a", "-x",
 		"-o", "BatchMode=yes", "-o", "StrictHostKeyChecking=yes",
 		"-o", "UserKnownHostsFile=" + kh, "-o", "GlobalKnownHostsFile=/dev/null",
 		"-o", "IdentitiesOnly=yes", "-o", "IdentityAgent=none", "-o", "IdentityFile=" + e.KeyFile,
 		"-o", "PreferredAuthentications=publickey", "-o", "UpdateHostKeys=no", "-o", "CheckHostIP=no",
-		"-o", "LogLevel=ERROR", "-o", "ConnectTimeout=30", "-o", "ControlPath=none",
+		"-o", "LogLevel=" + r.LogLevel, "-o", "ConnectTimeout=30", "-o", "ControlPath=none",
 	}
 	opt := func(k, v string) {
 		if v != "" {
